@@ -76,7 +76,7 @@ func init() {
 }
 
 func runC15(a *A) {
-	r := resolveRoles(a, "C15-R0")
+	r := resolveRolesG(a, "C15-R0", "p")
 	if r != nil {
 		ar := armAnalysis(a.W, r)
 		c15R1R2(a, r, ar)
